@@ -26,7 +26,7 @@ def _lit(n):
     if n["k"] == "UnaryOperator" and n["op"] == "-":
         v = _lit(X.kids(n)[0])
         return -v if v is not None else None
-    if n["k"] == "DeclRefExpr" and n.get("dk") == "EnumConstant":
+    if n["k"] == "DeclRefExpr" and n.get("v") is not None:
         return n.get("v")
     return None
 
@@ -125,3 +125,29 @@ def guard_facts(f, site, resolve=None):
     for cid, pol in gs:
         out |= facts(f, f.nodes[cid], pol, resolve)
     return out, gs
+
+
+def contradicts(edge_facts, known):
+    """Cheap infeasibility test: does taking an edge with `edge_facts` contradict
+    the `known` facts?  Sound only as a filter for paths (may answer False for an
+    infeasible edge, never True for a feasible one given the known facts hold)."""
+    for t in edge_facts:
+        if t[0] in ("z", "false") and (("nz", t[1]) in known or ("pos", t[1]) in known or ("true", t[1]) in known):
+            return True
+        if t[0] in ("nz", "true", "pos") and (("z", t[1]) in known or ("false", t[1]) in known):
+            return True
+        if t[0] == "pos" and ("nonpos", t[1]) in known:
+            return True
+        if t[0] == "nonpos" and ("pos", t[1]) in known:
+            return True
+        if t[0] == "eq":
+            a, b = t[1], t[2]
+            if ("cmp", "!=", a, b) in known or ("cmp", "!=", b, a) in known:
+                return True
+            for x, y in ((a, b), (b, a)):
+                if ("z", x) in known and (("nz", y) in known or ("pos", y) in known):
+                    return True
+        if t[0] == "cmp" and t[1] == "!=":
+            if ("eq", t[2], t[3]) in known or ("eq", t[3], t[2]) in known:
+                return True
+    return False
